@@ -2600,8 +2600,9 @@ void prepare_cases (parse_node_t * pn, size_t start) {
 
           translate_absolute_line ((*ce)->line, (unsigned short *) mem_block[A_FILE_INFO].block, mem_block[A_FILE_INFO].current_size, &fi1, &l1);
           translate_absolute_line ((*(ce - 1))->line, (unsigned short *) mem_block[A_FILE_INFO].block, mem_block[A_FILE_INFO].current_size, &fi2, &l2);
-          f1 = PROG_STRING (fi1);
-          f2 = PROG_STRING (fi2);
+          /* a file id is the index of the file's name in the program string table plus one (see find_line) */
+          f1 = PROG_STRING (fi1 - 1);
+          f2 = PROG_STRING (fi2 - 1);
 
           p = strput (buf, buf_end, "Overlapping cases: ");
           if (f1)
@@ -2611,6 +2612,7 @@ void prepare_cases (parse_node_t * pn, size_t start) {
             }
           else
             p = strput (p, buf_end, "line ");
+          p = strput_int (p, buf_end, l1);
           p = strput (p, buf_end, " and ");
           if (f2)
             {
@@ -2619,6 +2621,7 @@ void prepare_cases (parse_node_t * pn, size_t start) {
             }
           else
             p = strput (p, buf_end, "line ");
+          p = strput_int (p, buf_end, l2);
           p = strput (p, buf_end, ".");
           yyerror (buf);
         }
